@@ -438,4 +438,21 @@ def run(ctx: Ctx):
     c.check_bounds()
     c.check_validators()
     c.check_bypass()
+    # "identically through ... AOEF loading": the readers of the validated classes hand the document's values to the
+    # validating constructor as they are (no repair, de-duplication, reordering or filtering in between): C01's field
+    # rules on exactly those fields
+    from .c01 import C01
+    with ctx.delegated("C01/"):
+        ctx.rule("R01.1", "AOEF readers supply the validated fields of the validated classes", 30)
+        ctx.rule("R01.2", "validated list fields are read element for element, in order, without collapsing duplicates", 10)
+        c1 = C01(ctx)
+        wanted = {"ClipEvaluationAdapter": {"matches", "annotations", "predictions", "score"},
+                  "MatchAdapter": {"source", "target", "affinity", "score"},
+                  "ClipAdapter": {"start_time", "end_time"}}
+        for leaf in c1.ao.leaves.values():
+            if leaf.name in wanted:
+                c1.check_pair(leaf.name, leaf.ci, leaf.D, leaf.O, leaf.writer_name, leaf.reader_name, [], only=wanted[leaf.name])
+        for col in c1.ao.collections:
+            if col.ci.name == "AnnotationProjectAdapter":
+                c1.check_pair(col.ci.name, col.ci, col.D, col.O, "to_aoef", "to_soundevent", [], collection=True, only={"tasks", "clip_annotations"})
     return EXPLANATION, ASSUMPTIONS
